@@ -746,15 +746,19 @@ static void deliver(int m, int s, int j, TControl& control, int selfOk, int evOk
 
 //------------------------------------------------------------------------------ callback layers
 
-struct Ev { int v; };
-static const Ev* g_evPtr = nullptr;
+// two unrelated event types: react() / query() are templates over the event type, the scripts alternate between them
+struct Ev  { int v; };
+struct Ev2 { double pad; int v; };
+static const void* g_evPtr = nullptr;
+static int g_evType = 0;
 
 template <typename T>
 static int selfOk(const T* self) {
 	using TInstance = typename Dep<T>::Instance;
 	return static_cast<const void*>(self) == static_cast<const void*>(&static_cast<TInstance*>(g_curFsm)->template access<T>()) ? 1 : 0;
 }
-static int evOk(const Ev& e) { return &e == g_evPtr ? 1 : 0; }
+static int evOk(const Ev&  e) { return (&e == g_evPtr && g_evType == 1) ? 1 : 0; }
+static int evOk(const Ev2& e) { return (&e == g_evPtr && g_evType == 2) ? 1 : 0; }
 
 // user state: every class of the machine (head, states, injections) carries a counter of the callbacks delivered to that very
 // object; it is part of what a copy-constructed machine must carry over
@@ -775,16 +779,28 @@ template <typename TOwner> struct Visits { mutable unsigned visits = 0x5A5A5A00u
 	};																														\
 	template <typename B, typename T, int SI, int JI> struct L_##NAME<B, T, SI, JI, false> : B {};
 
+// event callbacks: one overload per event type
+#define VH_LAYER_EV(NAME, BIT, KIND, EVQ, CTRL, CONSTQ)																		\
+	template <typename B, typename T, int SI, int JI, bool On> struct L_##NAME : B {										\
+		VH_VIRTUAL void NAME (EVQ Ev& e, typename B::CTRL& c) CONSTQ VH_NOEXCEPT {											\
+			const T* const self = static_cast<const T*>(this);																\
+			deliver<KIND>(BIT, SI, JI, c, selfOk(self), evOk(e), ++self->Visits<T>::visits); }								\
+		VH_VIRTUAL void NAME (EVQ Ev2& e, typename B::CTRL& c) CONSTQ VH_NOEXCEPT {											\
+			const T* const self = static_cast<const T*>(this);																\
+			deliver<KIND>(BIT, SI, JI, c, selfOk(self), evOk(e), ++self->Visits<T>::visits); }								\
+	};																														\
+	template <typename B, typename T, int SI, int JI> struct L_##NAME<B, T, SI, JI, false> : B {};
+
 VH_LAYER(entryGuard,  1, 3, (typename B::GuardControl& c),				-1,		 )
 VH_LAYER(enter,		  2, 1, (typename B::PlanControl&  c),				-1,		 )
 VH_LAYER(reenter,	  3, 1, (typename B::PlanControl&  c),				-1,		 )
 VH_LAYER(preUpdate,	  4, 2, (typename B::FullControl&  c),				-1,		 )
 VH_LAYER(update,	  5, 2, (typename B::FullControl&  c),				-1,		 )
 VH_LAYER(postUpdate,  6, 2, (typename B::FullControl&  c),				-1,		 )
-VH_LAYER(preReact,	  7, 2, (const Ev& e, typename B::FullControl& c),	evOk(e), )
-VH_LAYER(react,		  8, 2, (const Ev& e, typename B::FullControl& c),	evOk(e), )
-VH_LAYER(query,		  9, 0, (Ev& e, typename B::ConstControl& c),		evOk(e), const)
-VH_LAYER(postReact,	 10, 2, (const Ev& e, typename B::FullControl& c),	evOk(e), )
+VH_LAYER_EV(preReact,	  7, 2, const, FullControl,	 )
+VH_LAYER_EV(react,		  8, 2, const, FullControl,	 )
+VH_LAYER_EV(query,		  9, 0,		 , ConstControl, const)
+VH_LAYER_EV(postReact,	 10, 2, const, FullControl,	 )
 VH_LAYER(exitGuard,	 11, 3, (typename B::GuardControl& c),				-1,		 )
 VH_LAYER(exit,		 12, 1, (typename B::PlanControl&  c),				-1,		 )
 #if VH_PLANS
@@ -1045,8 +1061,15 @@ static bool execOp(int idx, const Op& o) {
 	else if (op == "exit")	in.m->exit();
 #endif
 	else if (op == "update") in.m->update();
-	else if (op == "react")	 { Ev e = { static_cast<int>(o.a) }; g_evPtr = &e; in.m->react(e); g_evPtr = nullptr; }
-	else if (op == "query")	 { Ev e = { static_cast<int>(o.a) }; g_evPtr = &e; const FSM::Instance& cm = *in.m; cm.query(e); g_evPtr = nullptr; r = e.v; }
+	else if (op == "react")	 {
+		if (o.a & 1) { Ev2 e = { 0.5, static_cast<int>(o.a) }; g_evPtr = &e; g_evType = 2; in.m->react(e); }
+		else		 { Ev  e = { static_cast<int>(o.a) };	   g_evPtr = &e; g_evType = 1; in.m->react(e); }
+		g_evPtr = nullptr; g_evType = 0; }
+	else if (op == "query")	 {
+		const FSM::Instance& cm = *in.m;
+		if (o.a & 1) { Ev2 e = { 0.5, static_cast<int>(o.a) }; g_evPtr = &e; g_evType = 2; cm.query(e); r = e.v; }
+		else		 { Ev  e = { static_cast<int>(o.a) };	   g_evPtr = &e; g_evType = 1; cm.query(e); r = e.v; }
+		g_evPtr = nullptr; g_evType = 0; }
 	else if (op == "to")	 { if (typedNow()) { F_changeTo<FSM::Instance> f = { *in.m }; typed(static_cast<int>(o.a), f); } else in.m->changeTo(static_cast<ffsm2::StateID>(o.a)); }
 	else if (op == "ito")	 { if (typedNow()) { F_immediateChangeTo<FSM::Instance> f = { *in.m }; typed(static_cast<int>(o.a), f); } else in.m->immediateChangeTo(static_cast<ffsm2::StateID>(o.a)); }
 #if VH_PAY
